@@ -15,6 +15,9 @@ pub enum Entry {
     AlgDiff,
     /// similar::algorithms::diff_slices(alg, ..) (whole slices only)
     DiffSlices,
+    /// similar::algorithms::diff_deadline(alg, .., Some(deadline)) under the symbolic clock
+    /// (hook H1): the same script claims at every expiry point
+    DeadlineClock,
 }
 
 #[derive(Clone, Debug)]
@@ -71,6 +74,12 @@ pub fn run_diff(
         Entry::AlgDiff => {
             algorithms::diff(alg, mon, &inp.old, inp.or.clone(), &inp.new, inp.nr.clone())
         }
+        Entry::DeadlineClock => {
+            let _clock = install_clock();
+            let r = algorithms::diff_deadline(alg, mon, &inp.old, inp.or.clone(), &inp.new, inp.nr.clone(), any_instant());
+            similar::verif_clock::install(None);
+            r
+        }
         Entry::DiffSlices => match (&inp.old, &inp.new) {
             (Seq::Slice(o), Seq::Slice(n)) => algorithms::diff_slices(alg, mon, &o[..], &n[..]),
             _ => unreachable!(),
@@ -88,7 +97,8 @@ impl Prop for C01 {
         let mut v = vec![];
         for alg in ALGS {
             let max = match (tier, alg) {
-                (Tier::Quick, _) => 4,
+                (Tier::Quick, Algorithm::Patience) => 4,
+                (Tier::Quick, _) => 5,
                 (Tier::Thorough, Algorithm::Patience) => 5,
                 (Tier::Thorough, _) => 6,
             };
@@ -137,6 +147,11 @@ impl Prop for C01 {
                             entry: Entry::DiffSlices,
                         });
                     }
+                    if n <= 4 && m <= 4 {
+                        for layout in [Layout::Slice { pre_o: 0, post_o: 0, pre_n: 0, post_n: 0 }, Layout::Offset { off_o: 2, off_n: 1 }] {
+                            v.push(Shape { alg, n, m, layout, entry: Entry::DeadlineClock });
+                        }
+                    }
                 }
             }
         }
@@ -144,6 +159,7 @@ impl Prop for C01 {
     }
 
     fn run(&self, s: &Shape) -> String {
+        reset_hooks();
         let inp = make_inputs(s.n, s.m, s.layout);
         let mut mon = Mon::new(&inp.old, inp.or.clone(), &inp.new, inp.nr.clone());
         let r = run_diff(s.alg, s.entry, &inp, &mut mon);
@@ -160,7 +176,10 @@ impl Prop for C01 {
             engine::witness("paths_with_delete_and_insert");
         }
         // differential clause: diffing the sub-range == diffing the extracted slices, shifted
-        if !s.layout.is_plain() {
+        if s.entry == Entry::DeadlineClock {
+            engine::witness("paths_under_the_symbolic_clock");
+        }
+        if !s.layout.is_plain() && s.entry != Entry::DeadlineClock {
             engine::witness("paths_with_subrange_differential");
             let inp2 = Inputs {
                 old: Seq::Slice(inp.old_items.clone()),
@@ -193,7 +212,7 @@ impl Prop for C01 {
 
     fn shape_json(&self, s: &Shape) -> Value {
         json!({"alg": alg_name(s.alg), "n": s.n, "m": s.m, "layout": s.layout.to_json(),
-               "entry": match s.entry { Entry::Module => "module", Entry::AlgDiff => "algorithms::diff", Entry::DiffSlices => "diff_slices" }})
+               "entry": match s.entry { Entry::Module => "module", Entry::AlgDiff => "algorithms::diff", Entry::DiffSlices => "diff_slices", Entry::DeadlineClock => "diff_deadline+clock" }})
     }
     fn shape_from(&self, v: &Value) -> Shape {
         Shape {
@@ -204,6 +223,7 @@ impl Prop for C01 {
             entry: match v["entry"].as_str().unwrap() {
                 "module" => Entry::Module,
                 "algorithms::diff" => Entry::AlgDiff,
+                "diff_deadline+clock" => Entry::DeadlineClock,
                 _ => Entry::DiffSlices,
             },
         }
@@ -213,8 +233,12 @@ impl Prop for C01 {
         (s.n + s.m) as u64
     }
 
-    fn describe(&self, s: &Shape, ints: &[i64], _b: &[bool]) -> Value {
-        describe_inputs(s.n, s.m, s.layout, ints)
+    fn describe(&self, s: &Shape, ints: &[i64], b: &[bool]) -> Value {
+        let mut d = describe_inputs(s.n, s.m, s.layout, ints);
+        if s.entry == Entry::DeadlineClock {
+            d["deadline_probe_outcomes"] = json!(b);
+        }
+        d
     }
 
     fn meta(&self, tier: Tier) -> Meta {
@@ -228,10 +252,10 @@ impl Prop for C01 {
                 "similar::algorithms::{Replace,NoFinishHook} (inside patience)",
             ],
             bounds: match tier {
-                Tier::Quick => "3 algorithms x range lengths n,m in 0..=4 x {slice with 0/1 padding items before/after each range (16 combinations), offset lookups at (0,0),(1,0),(0,2),(3,1)} x entry points {alg module diff, algorithms::diff, diff_slices (whole slices)}; items symbolic over an unbounded alphabet (z3 Int), padding items symbolic too".into(),
+                Tier::Quick => "3 algorithms x range lengths n,m in 0..=5 (Patience 0..=4) x {slice with 0/1 padding items before/after each range (16 combinations), offset lookups at (0,0),(1,0),(0,2),(3,1)} x entry points {alg module diff, algorithms::diff, diff_slices (whole slices)}, plus algorithms::diff_deadline under the symbolic clock (every expiry point) for n,m<=4; items symbolic over an unbounded alphabet (z3 Int), padding items symbolic too".into(),
                 Tier::Thorough => "as quick, with n,m in 0..=6 (Patience 0..=5), padding before in {0,1,2}; for n+m>8 only a reduced set of layouts".into(),
             },
-            outside: "range lengths beyond the bound; Index implementations with side effects; PartialEq implementations that are not equivalence relations; deadlines (C07)".into(),
+            outside: "range lengths beyond the bound; Index implementations with side effects; PartialEq implementations that are not equivalence relations; the promptness / plumbing clauses of deadlines (C07)".into(),
             assumptions: vec![
                 "items are compared only through PartialEq/Ord/Hash of the element type (true for generic code without specialization)".into(),
                 "Sym's Hash is constant in symbolic runs (lawful); concrete re-executions hash the value".into(),
